@@ -4,7 +4,7 @@
 set -u
 OUT=$(mktemp /tmp/baseline.XXXXXX.json)
 for m in go/mcap go/ros; do
-  (cd /repo/$m && GOFLAGS= go test -json -vet=off -count=1 -timeout 25m ./... 2>&1) >> $OUT
+  (cd ${VERIF_REPO:-/repo}/$m && GOFLAGS= go test -json -vet=off -count=1 -timeout 25m ./... 2>&1) >> $OUT
 done
 python3 - "$OUT" <<'PY'
 import json,sys
